@@ -139,18 +139,24 @@ func c04R1(r *Report, read *ssa.Function) {
 		r.Fn(rd)
 		// the only values sent on ch are the phi of Read's message and Error{err}
 		sends := 0
-		allInstrs(rd, func(in ssa.Instruction) {
-			if sel, ok := in.(*ssa.Select); ok {
-				for _, st := range sel.States {
-					if st.Dir == types.SendOnly {
-						sends++
+		// Reader and the private helpers factored out of it (deliver(ch, done, m))
+		for _, uf := range r.P.SrcFuncs() {
+			if relPkg(uf) != "protocol" || !(uf == rd || enclosingNamed(uf) == rd || r.P.inUnitOf(enclosingNamed(uf), rd)) {
+				continue
+			}
+			allInstrs(uf, func(in ssa.Instruction) {
+				if sel, ok := in.(*ssa.Select); ok {
+					for _, st := range sel.States {
+						if st.Dir == types.SendOnly {
+							sends++
+						}
 					}
 				}
-			}
-			if _, ok := in.(*ssa.Send); ok {
-				sends++
-			}
-		})
+				if _, ok := in.(*ssa.Send); ok {
+					sends++
+				}
+			})
+		}
 		r.Check(sends == 1, "R1", "Reader/single-send", rd.Pos(), "protocol.Reader has one send site for decoded messages", fmt.Sprintf("protocol.Reader has %d send sites; the rule knows one", sends))
 	}
 }
@@ -582,6 +588,21 @@ func sliceLenAff(s, L ssa.Value, depth int) aff {
 	switch x := s.(type) {
 	case *ssa.MakeSlice:
 		return affineOf(x.Len, L, depth+1)
+	case *ssa.UnOp:
+		// a buffer kept in a cell (captured by a deferred closure): the one value stored into it
+		if al, ok := x.X.(*ssa.Alloc); ok && x.Op == token.MUL && depth < 8 {
+			var val ssa.Value
+			n := 0
+			for _, ref := range *al.Referrers() {
+				if st, isSt := ref.(*ssa.Store); isSt && st.Addr == ssa.Value(al) {
+					n++
+					val = st.Val
+				}
+			}
+			if n == 1 {
+				return sliceLenAff(val, L, depth+1)
+			}
+		}
 	case *ssa.Slice:
 		// buf[lo:hi] of a local array (var buf [4]byte) or of a constant-size make
 		if al, ok := x.X.(*ssa.Alloc); ok {
@@ -1303,6 +1324,16 @@ func r4apply(p *Prog, s *r4state, instr ssa.Instruction, rp ssa.Value, L ssa.Val
 		add(affineOf(c.Call.Args[1], L, 0), "Discard of a count that is not affine in the frame length")
 	case isStdCall(c, "io", "", "ReadFull"):
 		add(sliceLenAff(c.Call.Args[1], L, 0), "io.ReadFull into a buffer whose length is not affine in the frame length")
+	case isStdCall(c, "io", "", "ReadAtLeast") && len(c.Call.Args) == 3 && func() bool {
+		// io.ReadAtLeast(r, buf, len(buf)) is io.ReadFull
+		buf, min := c.Call.Args[1], stripIntConv(c.Call.Args[2])
+		if isLenOf(min, buf) {
+			return true
+		}
+		ms, ok := buf.(*ssa.MakeSlice)
+		return ok && symEq(ms.Len, min, 0)
+	}():
+		add(sliceLenAff(c.Call.Args[1], L, 0), "io.ReadAtLeast into a buffer whose length is not affine in the frame length")
 	case isStdCall(c, "io", "", "LimitReader"):
 		a := affineOf(c.Call.Args[1], L, 0)
 		if !a.OK {
